@@ -435,3 +435,12 @@ def concatenateD (fill : String → List Rat) : List SS → Option SS
       { first with rows := first.rows.map (relayExtra U fill first) ++ rs.flatten, fields := U }
 
 end SSM
+
+namespace SSM
+
+/-- `filter(pred)` with a predicate that returns numbers rather than booleans: the mask is built with
+    `np.fromiter(..., dtype=bool)`, which coerces every value to its truthiness before `record[keep]` -/
+def filterTruthy (rows : List Row) (val : Row → Rat) : List Row :=
+  maskSelect rows (rows.map fun r => decide (val r ≠ 0))
+
+end SSM
